@@ -98,7 +98,14 @@ def canonical_ops(chk, n_random, every, nvalues, rng, want=("encode",), overfill
                     extra_inputs[ci] = _json.load(fh).get("cpp_inputs", [])
                 break
     cases = corp + cases
-    jobs, pyres = python_encodings(cases, rng, nvalues, want)
+    # the values recorded with the corpus witnesses of this property run first, then generated ones
+    corp_vals = {}
+    for ci, (_, f, t) in enumerate(corp):
+        for f2, t2, vs, j in codec.load_corpus(chk.pid):
+            if f2 == f and vs:
+                corp_vals[ci] = list(vs) + S.gen_values(rng, t, nvalues)
+    jobs = codec.make_jobs(cases, rng, nvalues, list(want), corpus=corp_vals)
+    pyres = impl.run_py_jobs(jobs)
     tail_ok = tail_aligned_map(cases, jobs, pyres)
     cj = []
     index = {}
